@@ -4,7 +4,7 @@ CONSTANTS
   MaxBuf = 3
   Sizes = {1, 2, 3}
   InitSizes = {0, 2}
-  MaxSteps = 7
+  MaxSteps = 6
   WithWriteDirect = TRUE
   WithAppend = TRUE
   WithBook = TRUE
